@@ -62,8 +62,10 @@
      finding (1.05 million qualifying pairs over {a,b} ≤ 7 / {a,b,c} ≤ 5; 200 000 random long pairs; table searches)
      report no dropped pair.
 
-  NOT COVERED: float thresholds under EDIT_DISTANCE; OVERLAP (done in C04.lean: `pair_safe_overlap`,
-  `tables_safe_overlap`); thresholds below 2⁻²⁰ for the set measures.
+  Float thresholds under EDIT_DISTANCE: SSJ/Props/C04_float.lean (`pair_safe_suffix_ed_float`,
+  `tables_safe_suffix_ed_float`).
+  NOT COVERED: OVERLAP (done in C04.lean: `pair_safe_overlap`, `tables_safe_overlap`; float thresholds in C04_float.lean);
+  thresholds below 2⁻²⁰ for the set measures.
 -/
 import SSJ.Proofs.SuffixSmall
 import SSJ.Proofs.SuffixBag
